@@ -484,6 +484,40 @@ class Interp:
             return S.quant(s, 0, n, gr, S.check_bounds(0, n, True, False))
         return self._q('AtMost', f, self.ev(t['x'][0]), lambda r: QU.AtMost(r, n, gr), lambda p: p.at_most(n, gr), sh)
 
+    def op_qseq(self, t, f):
+        """the SAME operand object goes through a sequence of quantifier calls (valid and invalid bounds);
+        every call is judged; the value of the node is the last successful result"""
+        xr, xs = self.ev(t['x'][0])
+        pr, ps = self.P(xr, xs)
+        last = (pr, ps)
+        for call in t['calls']:
+            kind, n = call[0], call[1]
+            try:
+                if kind == 'ex':
+                    form = call[2] if len(call) > 2 else 'm'
+                    thunk = {'m': (lambda: pr.exactly(n)), 'c': (lambda: QU.Exactly(pr, n)), 'o': (lambda: pr * n), 'r': (lambda: n * pr)}[form]
+                    last = self.call('Exactly', form, thunk, lambda: S.quant(S.operand(ps), n, n, True, S.check_bounds(n, None, False, False)),
+                                     [(pr, ps)], flags=['quant'])
+                elif kind == 'q':
+                    m, g = call[2], (call[3] if len(call) > 3 else True)
+                    form = call[4] if len(call) > 4 else 'm'
+                    thunk = (lambda: pr.at_least_at_most(n, m, g)) if form == 'm' else (lambda: QU.AtLeastAtMost(pr, n, m, g))
+                    last = self.call('AtLeastAtMost', form, thunk, lambda: S.quant(S.operand(ps), n, m, g, S.check_bounds(n, m, True, True)),
+                                     [(pr, ps)], flags=['quant'])
+                elif kind == 'al':
+                    g = call[2] if len(call) > 2 else True
+                    last = self.call('AtLeast', 'm', lambda: pr.at_least(n, g),
+                                     lambda: S.quant(S.operand(ps), n, None, g, S.check_bounds(n, None, False, False)), [(pr, ps)], flags=['quant'])
+                elif kind == 'am':
+                    g = call[2] if len(call) > 2 else True
+                    last = self.call('AtMost', 'm', lambda: pr.at_most(n, g),
+                                     lambda: S.quant(S.operand(ps), 0, n, g, S.check_bounds(0, n, True, False)) if n is not None
+                                     else S.quant(S.operand(ps), 0, None, g), [(pr, ps)], flags=['quant'])
+            except Abort as a:
+                if a.why == 'violation':
+                    raise
+        return last
+
     # ------------------------------------------------------------------ groups
     def op_cap(self, t, f):
         xr, xs = self.ev(t['x'][0])
